@@ -157,6 +157,8 @@ type c06Outcome struct {
 //	4: A destination block of r1, B destination block of r2
 //	5: A and B global; 6: A and B in the destination block of r1
 func c06Run(shape int, lmtp bool, vA, vB [4]int) c06Outcome {
+	// same = 1: the second recipient is routed to the destination block of the first
+	same := verifParam("same", 0) == 1
 	A := &c06Check{name: "A", verdict: vA}
 	B := &c06Check{name: "B", verdict: vB}
 	t1 := &c06Target{name: "t1", partial: lmtp}
@@ -164,7 +166,7 @@ func c06Run(shape int, lmtp bool, vA, vB [4]int) c06Outcome {
 	b1 := &rcptBlock{targets: []module.DeliveryTarget{t1}}
 	b2 := &rcptBlock{targets: []module.DeliveryTarget{t2}}
 	cfg := msgpipelineCfg{perSource: map[string]sourceBlock{}}
-	src := sourceBlock{perRcpt: map[string]*rcptBlock{"r1@example.org": b1, "r2@example.org": b2},
+	src := sourceBlock{perRcpt: map[string]*rcptBlock{"r1@example.org": b1, "r2@example.org": b2, "r1b@example.org": b1},
 		defaultRcpt: &rcptBlock{rejectErr: errors.New("no route")}}
 	switch shape {
 	case 0:
@@ -198,6 +200,9 @@ func c06Run(shape int, lmtp bool, vA, vB [4]int) c06Outcome {
 		return out
 	}
 	rcpts := []string{"r1@example.org", "r2@example.org"}
+	if same {
+		rcpts[1] = "r1b@example.org"
+	}
 	any := false
 	for i, r := range rcpts {
 		if err := dl.AddRcpt(ctx, r, smtp.RcptOptions{}); err != nil {
@@ -233,7 +238,11 @@ func c06Run(shape int, lmtp bool, vA, vB [4]int) c06Outcome {
 	} else {
 		dl.Commit(ctx)
 	}
-	for i, t := range []*c06Target{t1, t2} {
+	tgts := []*c06Target{t1, t2}
+	if same {
+		tgts[1] = t1
+	}
+	for i, t := range tgts {
 		out.delivered[i] = t.committed > 0 && t.bodies > 0
 		for _, q := range t.quarantine {
 			if q {
@@ -282,6 +291,9 @@ func harness_C06_checks() {
 		scope[1] = append(scope[1], vB)
 	case 6:
 		scope[0] = append(scope[0], vA, vB)
+	}
+	if verifParam("same", 0) == 1 {
+		scope[1] = scope[0]
 	}
 	has := func(vs [][4]int, stage, verdict int) bool {
 		r := false
